@@ -514,3 +514,7 @@ func (e *Engine) wasCalled(fn *ssa.Function, form string) bool {
 	}
 	return false
 }
+
+// forceCover: GOVC_FORCECOVER=1 generates the vacuity guards also for contracts
+// marked nocover (diagnostic runs: an `unsat` guard is a vacuous proof).
+func forceCover() bool { return os.Getenv("GOVC_FORCECOVER") != "" }
